@@ -6,6 +6,7 @@ import (
 	"go/types"
 	"math"
 	"math/big"
+	"os"
 	"strings"
 
 	"golang.org/x/tools/go/ssa"
@@ -177,6 +178,7 @@ func (vc *VC) siteAsserts(st *State, kind, anchor string, ord int, when string, 
 		if when == "after" {
 			name += ".after"
 		}
+		vc.coverOnce(st, "cover."+name)
 		vc.oblige(st, name, "site", t, ss.Clause.Text, ss.Clause.Props)
 	}
 	return nil
@@ -644,6 +646,11 @@ func (vc *VC) callContractGeneric(st *State, resV ssa.Value, c *ssa.CallCommon, 
 	}
 	envPost := &Env{vc: vc, st: post, old: pre, vars: vars2, pkg: calleePkg}
 	for _, e := range spec.Ensures {
+		if mentionsExecutionGhost(e.Text) && os.Getenv("GOVC_SELFCHECK_EXPORT_GHOSTS") == "" {
+			// ncalls / nsends / ndone / iter talk about the callee's own execution; the caller's counters are different
+			// objects, so such a clause says nothing a caller may use (assuming it would equate unrelated counters)
+			continue
+		}
 		t, err := envPost.compileBool(e.E)
 		if err != nil {
 			return fmt.Errorf("%s: ensures#%d of %s: %v", vc.key, e.N, key, err)
@@ -651,6 +658,15 @@ func (vc *VC) callContractGeneric(st *State, resV ssa.Value, c *ssa.CallCommon, 
 		vc.assume(post, t)
 	}
 	return nil
+}
+
+func mentionsExecutionGhost(text string) bool {
+	for _, g := range []string{"ncalls(", "nsends(", "ndone(", "iter("} {
+		if strings.Contains(text, g) {
+			return true
+		}
+	}
+	return false
 }
 
 // havocTargets forgets exactly the locations named by the callee's assigns clause (plus objects the callee allocates).
@@ -930,6 +946,7 @@ func (vc *VC) appendSites(st *State, anchor string, ord int, elem Val) error {
 		if ss.Clause.Label != "" {
 			name += "[" + ss.Clause.Label + "]"
 		}
+		vc.coverOnce(st, "cover."+name)
 		vc.oblige(st, name, "site", t, ss.Clause.Text, ss.Clause.Props)
 	}
 	return nil
